@@ -254,7 +254,7 @@ def set_default_doc(param, emit_default_doc=True):
     # if param is None: param = {"doc": "", "typ": "Any"}
     if _param is None or "doc" not in _param:
         return name, _param
-    has_defaults = "Defaults" in _param["doc"] or "defaults" in _param["doc"]
+    has_defaults = extract_default(_param["doc"], emit_default_doc=True)[1] is not None
 
     if has_defaults and not emit_default_doc:
         # Remove the default text
